@@ -286,6 +286,8 @@ def match_link_title(string, offset):
             escaped = True
         elif c == closing and not escaped:
             return offset, i + 1, string[offset + 1:i]
+        elif c == '(' and closing == ')' and not escaped:
+            return None
         elif escaped:
             escaped = False
     return None
